@@ -19,6 +19,7 @@ EXPLANATION = (
     "downstream calls a serializer.  The serialization call is inside a catch-all handler that on every path "
     "logs exactly one traceback and one eliot:serialization_failure through the normal path, returns, and "
     "cannot reach send.  Status and serializer agree at each emission site; private keys never reach write."
+    '  A per-field application may be skipped only for the identity serializer of a plain Field; every declared key must still be read from the message (that read raises for a missing field).'
 )
 RULE = ("obligation = rule instance bound to a name/use (alias), a call site, a handler, an emission site; "
         "non-trivial = dataflow state or CFG paths examined")
